@@ -58,7 +58,17 @@ func probes() []corev1alpha1.ObjectSetProbe {
 
 func rounds(int) step { return step{Desc: "settle", Do: nil} }
 
-func build(r *rand.Rand) *scenario {
+// buildOpts: C15 runs the same scenario twice, with and without delegation.
+type buildOpts struct {
+	// Deleg overrides the drawn delegation decision of (revision, phase); nil keeps the drawn one
+	Deleg func(rev int, phase string, drawn bool) bool
+	// PhaseGames adds pause flips and out-of-band deletions of phase objects to the script
+	PhaseGames bool
+}
+
+func build(r *rand.Rand) *scenario { return buildWith(r, buildOpts{}) }
+
+func buildWith(r *rand.Rand, bo buildOpts) *scenario {
 	sc := &scenario{NotReady: map[string]bool{}}
 	ns := "ns"
 	none := r.Intn(2) == 0
@@ -81,16 +91,20 @@ func build(r *rand.Rand) *scenario {
 		}
 		sc.Managed = append(sc.Managed, managed{g, ons, name})
 	}
-	class := func() string {
-		if r.Intn(3) == 0 {
+	class := func(rev int, phase string) string {
+		drawn := r.Intn(3) == 0
+		if bo.Deleg != nil {
+			drawn = bo.Deleg(rev, phase, drawn)
+		}
+		if drawn {
 			return "default"
 		}
 		return ""
 	}
 	template := func(v int, shape int) corev1alpha1.ObjectSetTemplateSpec {
 		c := fmt.Sprintf("v%d", v)
-		p1 := corev1alpha1.ObjectSetTemplatePhase{Name: "one", Class: class(), Objects: []corev1alpha1.ObjectSetObject{obj(scen.GVKConfigMap, "cm-1", c), obj(scen.GVKDeployment, "dep-1", c)}}
-		p2 := corev1alpha1.ObjectSetTemplatePhase{Name: "two", Class: class()}
+		p1 := corev1alpha1.ObjectSetTemplatePhase{Name: "one", Class: class(v, "one"), Objects: []corev1alpha1.ObjectSetObject{obj(scen.GVKConfigMap, "cm-1", c), obj(scen.GVKDeployment, "dep-1", c)}}
+		p2 := corev1alpha1.ObjectSetTemplatePhase{Name: "two", Class: class(v, "two")}
 		switch (shape + v) % 3 {
 		case 0:
 			p2.Objects = []corev1alpha1.ObjectSetObject{obj(scen.GVKConfigMap, "cm-2", c), obj(scen.GVKWidget, "wd-1", c)}
@@ -172,8 +186,32 @@ func build(r *rand.Rand) *scenario {
 				}
 			}
 		}
-		sc.Steps = append(sc.Steps, step{"create set-1", mk(1)}, rounds(1+r.Intn(4)),
-			step{"create set-2 (previous: set-1)", mk(2, "set-1")}, rounds(1+r.Intn(4)))
+		sc.Steps = append(sc.Steps, step{"create set-1", mk(1)}, rounds(1+r.Intn(4)))
+		if bo.PhaseGames {
+			phaseKind := kind + "Phase"
+			if r.Intn(2) == 0 {
+				sc.Steps = append(sc.Steps, step{"user: set-1 lifecycleState := Paused", func(e *scen.Env) {
+					e.Mutate("user", false, scen.PKO(kind), setNS, "set-1", "lifecycleState := Paused", func(u *unstructured.Unstructured) {
+						_ = unstructured.SetNestedField(u.Object, "Paused", "spec", "lifecycleState")
+					})
+				}}, rounds(1), step{"user: set-1 lifecycleState := Active", func(e *scen.Env) {
+					e.Mutate("user", false, scen.PKO(kind), setNS, "set-1", "lifecycleState := Active", func(u *unstructured.Unstructured) {
+						_ = unstructured.SetNestedField(u.Object, "Active", "spec", "lifecycleState")
+					})
+				}}, rounds(1))
+			}
+			if r.Intn(2) == 0 {
+				sc.Steps = append(sc.Steps, step{"third party: delete the phase objects of set-1 (no-op without delegation)", func(e *scen.Env) {
+					for _, k := range driver.Keys(e.W.Store, phaseKind) {
+						if strings.HasPrefix(k.Name, "set-1-") {
+							e.Count("c15_out_of_band_phase_object_deletions")
+							e.Delete("third-party", false, scen.PKO(phaseKind), k.Namespace, k.Name)
+						}
+					}
+				}}, rounds(1))
+			}
+		}
+		sc.Steps = append(sc.Steps, step{"create set-2 (previous: set-1)", mk(2, "set-1")}, rounds(1+r.Intn(4)))
 		life := func(name, state string) step {
 			return step{"user: " + name + " lifecycleState := " + state, func(e *scen.Env) {
 				e.Mutate("user", false, scen.PKO(kind), setNS, name, "lifecycleState := "+state, func(u *unstructured.Unstructured) {
@@ -222,6 +260,10 @@ type runResult struct {
 	StuckStage string
 	PanicInfo  string
 	Writes     []int
+	Viol       []scen.Violation
+	Counts     map[string]int
+	Order      map[string][]string
+	SetRev     map[string]int64 // every ObjectSet that ever reported a revision number
 	// TeardownDryRun409: a 409 was injected into the dry-run preflight of a teardown pass
 	TeardownDryRun409 int
 }
@@ -325,9 +367,9 @@ func (c *counter) OnPassEnd(_ *scen.Env, pr driver.PassResult) {
 	}
 }
 
-func execute(seed *rand.Rand, sc *scenario, ds []disturbance) runResult {
+func execute(seed *rand.Rand, sc *scenario, ds []disturbance, extra ...scen.Monitor) runResult {
 	cnt := &counter{}
-	e, err := scen.NewEnv(seed, driver.Options{}, cnt)
+	e, err := scen.NewEnv(seed, driver.Options{}, append([]scen.Monitor{cnt}, extra...)...)
 	if err != nil {
 		panic(err)
 	}
@@ -411,6 +453,15 @@ func execute(seed *rand.Rand, sc *scenario, ds []disturbance) runResult {
 	round(e, sc)
 	res.ExtraSeq = e.W.Store.Seq() - before
 	res.Log, res.Trace = e.Log, e.TraceTail(250)
+	res.Viol, res.Counts, res.Order = e.Viol, e.Counts, e.WriteOrder()
+	res.SetRev = map[string]int64{}
+	for _, rq := range e.W.Store.Trace() {
+		if strings.HasSuffix(rq.GVK.Kind, "ObjectSet") && rq.Post != nil {
+			if rev, ok, _ := unstructured.NestedInt64(rq.Post, "status", "revision"); ok && rev > 0 {
+				res.SetRev[rq.Key.Name] = rev
+			}
+		}
+	}
 	if len(cnt.panics) > 0 {
 		res.PanicInfo = cnt.panics[0]
 	}
